@@ -537,7 +537,7 @@ def gen_cli_case(rng, flow):
 class P(Prop):
     id = "C12"
     quick_cases = 1600
-    thorough_cases = 120000
+    thorough_cases = 60000
     chunk = 100
     rule = (
         "evidence file sets rendered from abstract rows: 1-2 files, 0-14 rows, 1-3 experiments, optional Fraction / "
